@@ -151,6 +151,18 @@ static void check_value(const FieldCase& fc, const Dom<T>& dom, const T& v, cons
 		TF tf(v, r);
 		J.index(v, tf.get_rlm_idx(), "field");
 		J.valid(v, tf.is_valid(), "field");
+		// 2b. a field object that held another value (a member of the domain) and was described with it, then given this
+		// value by assignment and by set(): what it reports must belong to the value it holds now
+		const T other = dom.range ? dom.lo : (dom.members.empty() ? v : (dom.members.begin()->first == v && dom.members.size() > 1 ? dom.members.rbegin()->first : dom.members.begin()->first));
+		TF held(other, r);
+		(void)held.get_rlm_idx(); (void)held.is_valid();
+		held = tf;
+		J.index(v, held.get_rlm_idx(), "assign");
+		J.valid(v, held.is_valid(), "assign");
+		TF held2(other, r);
+		(void)held2.get_rlm_idx();
+		held2.set(v);
+		J.index(v, held2.get_rlm_idx(), "set");
 	}
 	T fv = v;	// the value the generated field object holds (Boolean collapses its input to Y/N)
 	if constexpr (std::is_same<T, char>::value) {
